@@ -466,6 +466,22 @@ pub fn run(tier: &str, rec: &Recorder) -> RunOutput {
             f.min_edges = 2;
             for_each_graph(&f, seed, deadline, &stats, |b, c| check_free_reproducible(b, rec, c, envs));
         }
+        {
+            // medium inputs with inexact sums: nearly equal weights around 1 and the same scaled to whole numbers
+            // around 2^53, on real hash orders
+            let mut med: Vec<Built> = crate::c13::medium_inputs(tier).into_iter().filter(|b| b.case.starts_with("custom:gnpulp")).collect();
+            med.extend(crate::c13::big_whole_inputs(tier));
+            let stride = if tier == "quick" { 3 } else { 1 };
+            let med: Vec<Built> = med.into_iter().enumerate().filter(|(i, _)| i % stride == 0).map(|x| x.1).collect();
+            let tot = std::sync::Mutex::new(Counters::default());
+            par_for(med.len(), |i| {
+                let mut c = Counters::default();
+                check_free_reproducible(&med[i], rec, &mut c, envs.min(5));
+                c.inc("medium_inexact_weight_graphs");
+                tot.lock().unwrap().merge(&c);
+            });
+            stats.counters.lock().unwrap().merge(&tot.into_inner().unwrap());
+        }
         for mut f in [fam(US, 4, "u", &ORD_ONE), fam(DS, 3, "u", &ORD_ONE), fam(US, 3, "w12", &ORD_ONE)] {
             f.min_edges = 2;
             for_each_graph(&f, seed, deadline, &stats, |b, c| check_chain_reproducible(b, rec, c, envs.min(4)));
@@ -524,6 +540,20 @@ pub fn replay(case: &str, rec: &Recorder) -> bool {
             }
         });
         return rec.has_any();
+    }
+    if case.starts_with("custom:") {
+        let label = case.split('|').next().unwrap_or("");
+        let mut all = crate::c13::medium_inputs("thorough");
+        all.extend(crate::c13::big_whole_inputs("thorough"));
+        for b in all {
+            if b.case == label {
+                println!("{}", b.describe());
+                let mut c = Counters::default();
+                check_free_reproducible(&b, rec, &mut c, 12);
+                return rec.has_any();
+            }
+        }
+        return false;
     }
     if case.starts_with("env:") {
         let mut out = RunOutput::new("model_checking");
